@@ -185,7 +185,14 @@ def run(ctx, res):
                                 okr = isinstance(gotb, IntV) and solver.entails(s4.pc, flit(eq(gotb.l, Lin.atom(("byte", bs_.base, (bs_.start + J).key())))))
                         res.compare(bool(okr), "field-recovery", T.method(pv.adt, "bit_string"),
                                     "RPSI: the recovered string has the configured number of bits (8*len - ignored) and its whole bytes are the configured bytes", detail=repr(r)[:200], pc=s3.pc)
-    # ------------------------------------------------------------------ (c) NACK encoder step relation
+    nack_encoder(F, D, res)
+    res.floor("round-trip comparisons", n[0], 30)
+    res.analysed = {"comparisons": n[0]}
+    res.assumptions.append("not decided: NACK decoded set == requested set for every set (composition of two run-length state machines); the partially used last RPSI byte")
+
+
+def nack_encoder(F, D, res):
+    """(c) the NACK word generator's step relation: bit d-1 for 1 <= d <= 16, a new word iff d > 16, nothing dropped"""
     nxt = [d for d in F.bodies if "NackBuilderEntryIter" in d and d.endswith("::next")]
     res.ob(bool(nxt), "anchor", "NackBuilderEntryIter::next", "NACK word generator exists")
     if nxt:
@@ -217,15 +224,21 @@ def run(ctx, res):
                                 steps += 1
                                 res.compare(okb, "nack-transition", nxt[0],
                                             "NACK encoder: a sequence number at distance d = (seq - base) mod 2^16 in 1..=16 sets bit d-1 of the current word", detail=f"{nv}"[:200], pc=delta)
+                            elif "bitmask" in a[1] and nv is not None:
+                                # the word in progress is left as it is: only legitimate for a repeated base (d = 0)
+                                diffs = [y for l in delta if l[0] in ("le", "eq", "ne") for y in atoms_deep(l[1]) if y[0] == "mod" and y[2] == 65536]
+                                if diffs:
+                                    res.compare(solver.entails(delta, flit(eq(Lin.atom(diffs[0]), 0))), "nack-transition", nxt[0],
+                                                "NACK encoder: a sequence number that neither sets a bit nor starts a new word is the base itself (d = 0) — no requested number is dropped", pc=delta)
                     for kind, val, delta in lr.exit_kinds:
+                        diffs = [y for l in delta if l[0] in ("le", "eq", "ne") for y in atoms_deep(l[1]) if y[0] == "mod" and y[2] == 65536]
+                        if kind != "ret" and diffs:
+                            res.compare(False, "nack-transition", nxt[0],
+                                        "NACK encoder: the scan of the requested numbers is only left by returning a finished word", detail=kind, pc=delta)
                         if kind == "ret":
-                            diffs = [y for l in delta if l[0] in ("le", "eq", "ne") for y in atoms_deep(l[1]) if y[0] == "mod" and y[2] == 65536]
                             if diffs:
                                 flush += 1
                                 res.compare(solver.entails(delta, flit(gt(Lin.atom(diffs[0]), NACK_WINDOW))), "nack-transition", nxt[0],
                                             "NACK encoder: a new word is started only when the distance from the base exceeds 16", pc=delta)
         res.floor("NACK encoder bit-setting steps found", steps, 1)
         res.floor("NACK encoder flush paths found", flush, 1)
-    res.floor("round-trip comparisons", n[0], 30)
-    res.analysed = {"comparisons": n[0]}
-    res.assumptions.append("not decided: NACK decoded set == requested set for every set (composition of two run-length state machines); the partially used last RPSI byte")
